@@ -319,7 +319,7 @@ theorem pCreateDirN_contract :
       refine ⟨.ok (), mu2, ?_, inv2, VContract.of_ok ⟨by rw [hpar]; exact hd, ?_⟩ ⟨?_, ?_⟩⟩
       · unfold pCreateDirN
         rw [List.dropLast_concat, hE]
-        simp only [andThen, hv1, hcreate, hclear]
+        simp only [andThen, hv1, pCreateTail, hcreate, hclear]
       · exact (none_of_vcore (hs1 _ hvis)).1 (by rw [hov1]; exact hv1)
       · refine ⟨⟨dirEntryNow, hself, rfl⟩, ?_⟩
         -- the new directory is empty: nothing was visible below an absent path
